@@ -66,7 +66,8 @@ func (s *sess) endCase() {
 func (s *sess) file(name string) *dbfile {
 	f := s.files()[name]
 	if f == nil {
-		f = &dbfile{path: filepath.Join(s.dir, name+".wsp")}
+		f = &dbfile{path: filepath.Join(s.dir, name), size: -1}
+		must(os.MkdirAll(filepath.Dir(f.path), 0755))
 		s.files()[name] = f
 	}
 	return f
@@ -250,10 +251,23 @@ func init() {
 		f.db = db
 		s.obs("open ok")
 	})
+	register("snap", func(s *sess, tk []string) {
+		f := s.file(tk[1])
+		if _, err := os.Stat(f.path); err != nil {
+			f.digest, f.size = [32]byte{}, -1
+		} else {
+			f.digest, f.size = fileDigest(f.path)
+		}
+		s.obs("snap ok")
+	})
 	// disk F: is the file on disk byte-identical to the last snapshot (taken at create and at every sync)?
 	register("disk", func(s *sess, tk []string) {
 		f := s.file(tk[1])
-		d, sz := fileDigest(f.path)
+		var d [32]byte
+		sz := int64(-1)
+		if _, err := os.Stat(f.path); err == nil {
+			d, sz = fileDigest(f.path)
+		}
 		if d == f.digest && sz == f.size {
 			s.obs("disk same")
 		} else {
